@@ -1,5 +1,5 @@
 (* C13 — only matching regular files under the given paths can change. *)
-From AD Require Import Bytes Outcome Fs Helper HelperProofs Config Walk WalkProofs Brp.
+From AD Require Import Bytes Outcome Gen Fs Helper HelperProofs Config Walk WalkProofs Brp.
 
 (* For every walk (any list of entries in any order, any handler list, any mode, any single fault):
    a name q that is neither a matching, non-temp-named entry nor the hidden temp name of one is bound
@@ -44,6 +44,11 @@ Theorem C13_brp_pass : forall args r,
                forall a, In a args -> comps_prefix (components root) (components a) = true.
 Proof. exact brp_pass_means. Qed.
 
+(* obligation on the source order of process_entry (regenerated): the tool's own temporary names are skipped
+   before the entry is stat'ed, as Walk.process_entry assumes - a temporary file of a worker may vanish at any time *)
+Theorem C13_tmp_test_before_stat : walk_tmp_test_before_stat = true.
+Proof. reflexivity. Qed.
+
 Print Assumptions C13_names_frame.
 Print Assumptions C13_skipped_entries_inert.
 Print Assumptions C13_run_frame.
@@ -51,3 +56,4 @@ Print Assumptions C13_brp_unset.
 Print Assumptions C13_brp_empty.
 Print Assumptions C13_brp_root.
 Print Assumptions C13_brp_pass.
+Print Assumptions C13_tmp_test_before_stat.
